@@ -13,7 +13,43 @@ from hypothesis import seed as hseed
 from vf.core import Clause, HarnessError, Violation
 
 
+def run_optimised(pid, cname, cases, tag, module="vf.optchild", ctx=None):
+    """Runs the plain check function of clause `cname` on `cases` in children started with -O and -OO; raises the first Violation found."""
+    here = os.path.dirname(os.path.dirname(os.path.abspath(__file__)))
+    work = os.path.join(here, ".work", f"opt-{pid}-{os.getpid()}-{tag}")
+    os.makedirs(work, exist_ok=True)
+    path = os.path.join(work, "cases.json")
+    with open(path, "w") as f:
+        json.dump(cases, f)
+    try:
+        for flag in ("-O", "-OO"):
+            args = [sys.executable, "-B", flag, "-m", module] + ([pid, cname] if module == "vf.optchild" else []) + [path]
+            p = subprocess.run(args, capture_output=True, text=True, timeout=1800)
+            if p.returncode != 0:
+                raise HarnessError(f"optimised child failed: {p.stderr[-2000:]}")
+            out = json.loads(p.stdout)
+            if out["optimize"] < 1:
+                raise HarnessError("child did not run optimised")
+            if ctx is not None:
+                ctx.called(out["calls"])
+            if out["violations"]:
+                v0 = out["violations"][0]
+                v = Violation("optimised:" + v0["bucket"], f"under python {flag}: " + v0["detail"])
+                v.case = cases[v0["index"]]
+                raise v
+    finally:
+        try:
+            os.remove(path)
+            os.rmdir(work)
+        except OSError:
+            pass
+
+
 def optimised(pid, base: Clause, quick=64, thorough=640):
+    def check(case, ctx):
+        """plain replay: the saved case again in -O / -OO children (an ordinary interpreter would not show what these clauses are for)"""
+        run_optimised(pid, base.name, [case], "replay", ctx=ctx)
+
     def custom(ctx, seed, tier, shard, nshards, n):
         strat = base.strategy() if callable(base.strategy) and not hasattr(base.strategy, "example") else base.strategy
         cases = []
@@ -26,38 +62,13 @@ def optimised(pid, base: Clause, quick=64, thorough=640):
 
         collect()
         cs = cases[:n] if shard == 0 else cases[1:n + 1]
-        here = os.path.dirname(os.path.dirname(os.path.abspath(__file__)))
-        work = os.path.join(here, ".work", f"opt-{pid}-{os.getpid()}-{shard}")
-        os.makedirs(work, exist_ok=True)
-        path = os.path.join(work, "cases.json")
-        with open(path, "w") as f:
-            json.dump(cs, f)
-        try:
-            for flag in ("-O", "-OO"):
-                p = subprocess.run([sys.executable, "-B", flag, "-m", "vf.optchild", pid, base.name, path], capture_output=True, text=True, timeout=1800)
-                if p.returncode != 0:
-                    raise HarnessError(f"optimised child failed: {p.stderr[-2000:]}")
-                out = json.loads(p.stdout)
-                if out["optimize"] < 1:
-                    raise HarnessError("child did not run optimised")
-                ctx.called(out["calls"])
-                if out["violations"]:
-                    v0 = out["violations"][0]
-                    v = Violation("optimised:" + v0["bucket"], f"under python {flag}: " + v0["detail"])
-                    v.case = cs[v0["index"]]
-                    raise v
-        finally:
-            try:
-                os.remove(path)
-                os.rmdir(work)
-            except OSError:
-                pass
+        run_optimised(pid, base.name, cs, str(shard), ctx=ctx)
         for c in cs:
             ctx.begin(c)
             ctx.nontrivial_if(True)
             ctx.label("flags:-O,-OO")
             ctx.end()
 
-    return Clause(name="optimised-interpreter:" + base.name, kind="custom", custom=custom, check=base.check, quick=quick, thorough=thorough,
+    return Clause(name="optimised-interpreter-of-" + base.name, kind="custom", custom=custom, check=check, quick=quick, thorough=thorough,
                   rule=f"the cases of clause {base.name}, judged by the same check function, in child interpreters started with -O and with -OO (assert statements and "
-                       f"__debug__ blocks compiled away); a replay file is a plain case of {base.name}")
+                       f"__debug__ blocks compiled away); a replay file is a plain case of {base.name} and is replayed in such children")
